@@ -92,8 +92,13 @@ def gen_unit(rng):
             # no row is wanted at all: nothing needs to be read, whatever the input holds
             T, S = 0, rng.randint(0, 3)
     sep = rng.choice(["\n", "\n", " ", "", "\t", "\r\n"])
-    return {"prefix": recs, "args": args, "pattern": pat, "S": S, "T": T, "transport": rng.choice(["stdin", "stdin", "fifo", "file+fifo"]),
-            "mode": mode, "sep": sep, "file_parts": rng.randint(0, len(recs))}
+    if "only_oa" in pat and sep != "":
+        # top-level scalars are passed over; strings whose text ends in an escape must not derail that
+        recs = list(recs)
+        for _ in range(rng.randint(1, 3)):
+            recs.insert(rng.randint(0, len(recs)), rng.choice(["dir\\", "a\\\\", "q\\\"", "\\", "x", 5, None, "{", "tail\\"]))
+    return {"prefix": recs, "args": args, "pattern": pat, "S": S, "T": T, "transport": rng.choice(["stdin", "stdin", "fifo", "file+fifo", "dir+fifo"]),
+            "mode": mode, "sep": sep, "file_parts": rng.choice((len(recs), rng.randint(0, len(recs))))}
 
 
 def run_unit(ctx, unit):
@@ -159,8 +164,13 @@ def run_unit(ctx, unit):
         k = min(unit.get("file_parts", 0), len(parts))
         first, rest = b"".join(parts[:k]), b"".join(parts[k:])
         in_file = len(first)
-        case = core.Case(["@D@/first.json", "@D@/endless.fifo"] + largs, files=[("first.json", first)],
-                         efifos=[("endless.fifo", rest, TAIL_PRE_U, TAIL_POST, cap)], watchdog_ms=30000)
+        if unit["transport"] == "dir+fifo":
+            # ... the ordinary file lies in a nested directory of a directory argument, with an empty sibling directory
+            case = core.Case(["@D@/in", "@D@/endless.fifo"] + largs, files=[("in/sub/deep/first.json", first), ("in/sub/deep/er/empty.json", b"")],
+                             efifos=[("endless.fifo", rest, TAIL_PRE_U, TAIL_POST, cap)], watchdog_ms=30000)
+        else:
+            case = core.Case(["@D@/first.json", "@D@/endless.fifo"] + largs, files=[("first.json", first)],
+                             efifos=[("endless.fifo", rest, TAIL_PRE_U, TAIL_POST, cap)], watchdog_ms=30000)
     o = ctx.drv.run(case)
     if o.result in ("timeout", "abort"):
         o, ok = ctx.drv.confirm(case, o)
